@@ -57,10 +57,21 @@ def run_potable(case):
     out = io.StringIO(); tab.write(out)
     return tab, out.getvalue()
 
+def potable_corpus():
+    """fixed potable models (whatever the random stream does): a zero-valued [Species] override; species labels that are element symbols
+    in another case ('NI', 'al': species of their own, described by [Species] alone) next to a real element"""
+    base = {'potable_eam': True, 'fs': False, 'nr': 5, 'nrho': 4, 'cutoff': 6.0, 'cutoff_rho': 50.0}
+    return [dict(base, target='setfl', embed=[('Ni', ec.EMBED[0]), ('Al', ec.EMBED[1])], dens=[('Al', ec.DENS[0]), ('Ni', ec.DENS[1])], ppairs=[(('Ni', 'Al'), ec.PAIRD[0])],
+                 species={'Ni.atomic_mass': '0.0', 'Al.atomic_number': '0', 'Al.lattice_constant': '4.05'}),
+            dict(base, target='setfl', embed=[('NI', ec.EMBED[0]), ('Al', ec.EMBED[1])], dens=[('Al', ec.DENS[0]), ('NI', ec.DENS[1])], ppairs=[(('NI', 'Al'), ec.PAIRD[1])],
+                 species={'NI.atomic_number': '28', 'NI.atomic_mass': '57.9353', 'NI.lattice_constant': '3.52', 'NI.lattice_type': 'bcc'}),
+            dict(base, target='lammps_eam_alloy', embed=[('al', ec.EMBED[2]), ('Cu', ec.EMBED[0])], dens=[('Cu', ec.DENS[2]), ('al', ec.DENS[0])], ppairs=[(('al', 'al'), ec.PAIRD[2])],
+                 species={'al.atomic_number': '13', 'al.atomic_mass': '1.5', 'Cu.lattice_constant': '3.61', 'Cu.atomic_mass': '65.0'})]
+
 def correspond(ctx):
     rng = ctx['rng']
     cases = [gen_case(rng, ctx['thorough']) for _ in range(200 if ctx['thorough'] else 45)]
-    pcases = [ec.gen_potable_eam(rng, False, rng.choice(['setfl', 'lammps_eam_alloy'])) for _ in range(40 if ctx['thorough'] else 10)]
+    pcases = potable_corpus() + [ec.gen_potable_eam(rng, False, rng.choice(['setfl', 'lammps_eam_alloy'])) for _ in range(40 if ctx['thorough'] else 10)]
     dis = []
     runs = []
     for c in cases:
@@ -198,6 +209,7 @@ def oracle(case):
                                  lambda i, x: val((3, i, 0), x), lambda i, d, x: val((4, i, 0), x), phi)
 
 def search_cases(rng, n):
+    for c in potable_corpus(): yield c
     for k in range(n // 4):
         yield gen_case(rng)
         if k % 5 == 0: yield ec.gen_potable_eam(rng, False, 'setfl')
